@@ -3,7 +3,7 @@
 (*   rw        s.lock, a Go RWMutex: w (write-locked), ww (a writer is        *)
 (*             waiting: new readers are held back), rd (read-lock holders)    *)
 (*   readyCh   closed or not        cur   s.currentSVID (0 = nil)             *)
-(*   Run       CAS; Lock; fetch (req, issuer answer, SPIFFE-ID check, dir     *)
+(*   Run       CAS; Lock; fetch (request, issuer answer, SPIFFE-ID check, dir *)
 (*             write); publish; close(readyCh); Unlock; rotation loop         *)
 (*   Ready     <-readyCh                                                      *)
 (*   Get       GetFix = FALSE (as first written): RLock, THEN <-readyCh       *)
@@ -11,7 +11,15 @@
 (*   consumers call Ready and, released by it, GetX509SVID                    *)
 (* Every observable step feeds the contract monitor c (SpiffeContract); the   *)
 (* invariant is ~IsBad(c).  The clock moves (Step) only when nothing else can *)
-(* move - exactly what the harness does with the fake clock.                  *)
+(* move - exactly what the harness does with the fake clock.  Times are whole *)
+(* seconds; the renewal instant and the timer targets are kept DOUBLED        *)
+(* (renew, target) because the half-life of an odd validity is x.5 s.         *)
+(* The model is used twice: exhaustively (Init/Next: the issuer follows a     *)
+(* script drawn from Scripts, clients and clock steps are free) and for       *)
+(* validating hook-level traces of the real code (TraceSpiffeImpl: the        *)
+(* issuer's answers, the calls and the clock steps come from the trace; the   *)
+(* parameterised actions Issue(a, v, ..), ReadyBegin, GetBegin, StepTo are    *)
+(* shared).                                                                   *)
 (* Variant switches the model to known-bad variants for the MC_defect cfgs:   *)
 (*   "readyEarly" readiness signalled before the write lock is taken          *)
 (*   "idLate"     SPIFFE-ID check after the identity-directory write          *)
@@ -34,93 +42,104 @@ GIds == 1..(NGet + NCons)          \* Get callers;   NGet+k   is consumer k
 IsCons(g) == g > NGet
 ConsReady(g) == NReady + (g - NGet)
 
-VARIABLES c, script, now, pcRun, rw, readyCh, cur, nreq, fetched, renew, target, files,
-          pcR, pcG, q, steps, seen
-vars == <<c, script, now, pcRun, rw, readyCh, cur, nreq, fetched, renew, target, files, pcR, pcG, q, steps, seen>>
+VARIABLES c, script, steps, dir, now, pcRun, rw, readyCh, cur, nreq, fetched, renew, target,
+          files, fca,             \* identity directory: request number of the set on disk (0: none), its trust-anchor version
+          ver,                    \* trust-anchor version current at the last answer
+          pcR, pcG, q, seen,
+          gval                    \* per Get caller: the SVID it read under the read lock (returned to the caller afterwards)
+vars == <<c, script, steps, dir, now, pcRun, rw, readyCh, cur, nreq, fetched, renew, target, files, fca, ver, pcR, pcG, q, seen, gval>>
 
 LongOK == [kind |-> "ok", nb |-> 0, na |-> 4 * Horizon + 100000]
 Answer(n) == IF n <= Len(script) THEN script[n] ELSE LongOK
 Min2(a, b) == IF a <= b THEN a ELSE b
-Half(nb, na) == nb + ((na - nb) \div 2)
 
-Init == /\ script \in Scripts /\ steps \in StepSets /\ seen = 0 /\ c = CReset(Dir) /\ now = 0 /\ pcRun = "idle"
-        /\ rw = [w |-> FALSE, ww |-> FALSE, rd |-> {}] /\ readyCh = FALSE /\ cur = 0 /\ nreq = 0
-        /\ fetched = [nb |-> 0, na |-> 0] /\ renew = 0 /\ target = 0 /\ files = 0
-        /\ pcR = [r \in RIds |-> "idle"] /\ pcG = [g \in GIds |-> "idle"] /\ q = FALSE
+InitCore(d) == /\ dir = d /\ seen = 0 /\ c = CReset(d) /\ now = 0 /\ pcRun = "idle"
+               /\ rw = [w |-> FALSE, ww |-> FALSE, rd |-> {}] /\ readyCh = FALSE /\ cur = 0 /\ nreq = 0
+               /\ fetched = [nb |-> 0, na |-> 0] /\ renew = 0 /\ target = 0 /\ files = 0 /\ fca = 0 /\ ver = 0
+               /\ pcR = [r \in RIds |-> "idle"] /\ pcG = [g \in GIds |-> "idle"] /\ q = FALSE
+               /\ gval = [g \in GIds |-> 0]
+Init == script \in Scripts /\ steps \in StepSets /\ InitCore(Dir)
 
 FilesEv == IF files = 0 THEN [ev |-> "files", set |-> "none", key |-> 0, cert |-> 0, ca |-> 0]
-           ELSE [ev |-> "files", set |-> "set", key |-> IF Variant = "keyReuse" THEN 1 ELSE files, cert |-> files, ca |-> files]
+           ELSE [ev |-> "files", set |-> "set", key |-> IF Variant = "keyReuse" THEN 1 ELSE files, cert |-> files, ca |-> fca]
 Emit(e) == c' = CNext(c, e)
-Emit2(e1, e2) == c' = CNext(CNext(c, e1), e2)
 
 (* ------------------------------ Run ------------------------------ *)
-RunCall == /\ pcRun = "idle" /\ pcRun' = "beforeLock" /\ Emit([ev |-> "run_call"]) /\ q' = FALSE
-           /\ UNCHANGED <<seen, steps, script, now, rw, readyCh, cur, nreq, fetched, renew, target, files, pcR, pcG>>
-RunLockReq == /\ pcRun = "beforeLock" /\ pcRun' = "lockWait" /\ rw' = [rw EXCEPT !.ww = TRUE]
+RunCall == /\ pcRun = "idle" /\ pcRun' = "beforeLock" /\ Emit([ev |-> "run_call"]) /\ q' = FALSE      \* CAS; hook spiffe.run.beforeLock
+           /\ UNCHANGED <<script, steps, dir, now, rw, readyCh, cur, nreq, fetched, renew, target, files, fca, ver, pcR, pcG, seen, gval>>
+RunLockReq == /\ pcRun = "beforeLock" /\ pcRun' = "lockWait" /\ rw' = [rw EXCEPT !.ww = TRUE]          \* Lock(): announced
               /\ readyCh' = (IF Variant = "readyEarly" THEN TRUE ELSE readyCh) /\ q' = FALSE
-              /\ UNCHANGED <<seen, steps, c, script, now, cur, nreq, fetched, renew, target, files, pcR, pcG>>
+              /\ UNCHANGED <<c, script, steps, dir, now, cur, nreq, fetched, renew, target, files, fca, ver, pcR, pcG, seen, gval>>
 LockAcq(from, to) == /\ pcRun = from /\ rw.rd = {} /\ pcRun' = to /\ rw' = [rw EXCEPT !.w = TRUE, !.ww = FALSE] /\ q' = FALSE
-                     /\ UNCHANGED <<seen, steps, c, script, now, readyCh, cur, nreq, fetched, renew, target, files, pcR, pcG>>
+                     /\ UNCHANGED <<c, script, steps, dir, now, readyCh, cur, nreq, fetched, renew, target, files, fca, ver, pcR, pcG, seen, gval>>
+(* fetchIdentityCertificate: fresh key + CSR, RequestSVIDFn *)
 Req(from, to) == /\ pcRun = from /\ pcRun' = to /\ nreq' = nreq + 1 /\ q' = FALSE
                  /\ Emit([ev |-> "req", n |-> nreq + 1, now |-> now,
                           keyid |-> IF Variant = "keyReuse" /\ nreq >= 1 THEN 1 ELSE nreq + 1])
-                 /\ UNCHANGED <<seen, steps, script, now, rw, readyCh, cur, fetched, renew, target, files, pcR, pcG>>
-IssueEv(a) == [ev |-> "issue", n |-> nreq, ok |-> a.kind # "err", chain |-> a.kind # "empty", hasid |-> a.kind \notin {"noid", "empty"},
-               nb |-> now + a.nb, na |-> now + a.na, anchors |-> nreq]
-(* the issuer answers; fetchIdentityCertificate checks the answer and writes the identity directory *)
-Ans(from, okTo, failTo) ==
-  /\ pcRun = from /\ q' = FALSE
-  /\ LET a == Answer(nreq) IN
-     IF a.kind = "ok"
-     THEN /\ pcRun' = okTo /\ fetched' = [nb |-> now + a.nb, na |-> now + a.na]
-          /\ IF Dir THEN files' = nreq /\ c' = CNext(CNext(c, IssueEv(a)), [ev |-> "files", set |-> "set",
-                                                 key |-> IF Variant = "keyReuse" THEN 1 ELSE nreq, cert |-> nreq, ca |-> nreq])
-                    ELSE UNCHANGED files /\ Emit(IssueEv(a))
+                 /\ UNCHANGED <<script, steps, dir, now, rw, readyCh, cur, fetched, renew, target, files, fca, ver, pcR, pcG, seen, gval>>
+IssueEv(a, v) == [ev |-> "issue", n |-> nreq, ok |-> a.kind # "err", chain |-> a.kind # "empty", hasid |-> a.kind \notin {"noid", "empty"},
+                  nb |-> now + a.nb, na |-> now + a.na, anchors |-> v]
+(* the issuer answers a (trust anchors now at version v); the answer is checked; a good one goes on to the directory write *)
+Issue(a, v, from, okTo, failTo) ==
+  /\ pcRun = from /\ q' = FALSE /\ ver' = v /\ Emit(IssueEv(a, v))
+  /\ IF a.kind = "ok"
+     THEN /\ pcRun' = (IF dir THEN (IF from = "ans" THEN "dirw" ELSE "dirw2") ELSE okTo)
+          /\ fetched' = [nb |-> now + a.nb, na |-> now + a.na]
           /\ UNCHANGED <<target, cur>>
-     ELSE /\ pcRun' = failTo /\ UNCHANGED fetched
-          /\ target' = now + (IF Variant = "retry5" THEN 5 ELSE 10)
+     ELSE /\ pcRun' = (IF dir /\ Variant = "idLate" /\ a.kind = "noid" THEN (IF from = "ans" THEN "dirwBad" ELSE "dirwBad2") ELSE failTo)
+          /\ UNCHANGED fetched
+          /\ target' = 2 * (now + (IF Variant = "retry5" THEN 5 ELSE 10))       \* (only used by the retry wait)
           /\ cur' = IF Variant = "swapFailed" /\ from = "ans2" THEN 0 ELSE cur
-          /\ IF Dir /\ Variant = "idLate" /\ a.kind = "noid"
-             THEN files' = nreq /\ c' = CNext(CNext(c, IssueEv(a)), [ev |-> "files", set |-> "set", key |-> nreq, cert |-> nreq, ca |-> nreq])
-             ELSE UNCHANGED files /\ Emit(IssueEv(a))
-  /\ UNCHANGED <<seen, steps, script, now, rw, readyCh, nreq, renew, pcR, pcG>>
+  /\ UNCHANGED <<script, steps, dir, now, rw, readyCh, nreq, renew, files, fca, pcR, pcG, seen, gval>>
+(* dir.Write: the new set becomes visible at the rename (the other filesystem steps change nothing observable) *)
+DirWrite(from, to) == /\ pcRun = from /\ pcRun' = to /\ files' = nreq /\ fca' = ver /\ q' = FALSE
+                      /\ Emit([ev |-> "files", set |-> "set", key |-> IF Variant = "keyReuse" THEN 1 ELSE nreq, cert |-> nreq, ca |-> ver])
+                      /\ UNCHANGED <<script, steps, dir, now, rw, readyCh, cur, nreq, fetched, renew, target, ver, pcR, pcG, seen, gval>>
 RunPublish == /\ pcRun = "publish" /\ pcRun' = "close" /\ cur' = nreq /\ q' = FALSE
-              /\ UNCHANGED <<seen, steps, c, script, now, rw, readyCh, nreq, fetched, renew, target, files, pcR, pcG>>
+              /\ UNCHANGED <<c, script, steps, dir, now, rw, readyCh, nreq, fetched, renew, target, files, fca, ver, pcR, pcG, seen, gval>>
 RunClose == /\ pcRun = "close" /\ pcRun' = "unlock" /\ readyCh' = TRUE /\ q' = FALSE
-            /\ UNCHANGED <<seen, steps, c, script, now, rw, cur, nreq, fetched, renew, target, files, pcR, pcG>>
+            /\ UNCHANGED <<c, script, steps, dir, now, rw, cur, nreq, fetched, renew, target, files, fca, ver, pcR, pcG, seen, gval>>
 RunUnlock == /\ pcRun = "unlock" /\ pcRun' = "arm" /\ rw' = [rw EXCEPT !.w = FALSE] /\ q' = FALSE
-             /\ renew' = Half(fetched.nb, fetched.na)
-             /\ UNCHANGED <<seen, steps, c, script, now, readyCh, cur, nreq, fetched, target, files, pcR, pcG>>
-RunInitFail == /\ pcRun = "initFail" /\ pcRun' = "done" /\ readyCh' = TRUE /\ rw' = [rw EXCEPT !.w = FALSE] /\ q' = FALSE
-               /\ Emit([ev |-> "run_ret", err |-> TRUE])
-               /\ UNCHANGED <<seen, steps, script, now, cur, nreq, fetched, renew, target, files, pcR, pcG>>
-(* rotation loop - spiffe.go runRotation *)
-RotArm == /\ pcRun = "arm" /\ pcRun' = "wait" /\ target' = now + Min2(60, renew - now) /\ q' = FALSE
-          /\ UNCHANGED <<seen, steps, c, script, now, rw, readyCh, cur, nreq, fetched, renew, files, pcR, pcG>>
-RotWake == /\ pcRun = "wait" /\ now >= target /\ pcRun' = (IF now < renew THEN "arm" ELSE "req2") /\ q' = FALSE
-           /\ UNCHANGED <<seen, steps, c, script, now, rw, readyCh, cur, nreq, fetched, renew, target, files, pcR, pcG>>
-RotRetry == /\ pcRun = "retry" /\ now >= target /\ pcRun' = "arm" /\ q' = FALSE
-            /\ UNCHANGED <<seen, steps, c, script, now, rw, readyCh, cur, nreq, fetched, renew, target, files, pcR, pcG>>
+             /\ renew' = fetched.nb + fetched.na
+             /\ UNCHANGED <<c, script, steps, dir, now, readyCh, cur, nreq, fetched, target, files, fca, ver, pcR, pcG, seen, gval>>
+(* the initial fetch failed: close(readyCh); Unlock; return the error *)
+FailClose == /\ pcRun = "initFail" /\ pcRun' = "failUnlock" /\ readyCh' = TRUE /\ q' = FALSE
+             /\ UNCHANGED <<c, script, steps, dir, now, rw, cur, nreq, fetched, renew, target, files, fca, ver, pcR, pcG, seen, gval>>
+FailUnlock == /\ pcRun = "failUnlock" /\ pcRun' = "failRet" /\ rw' = [rw EXCEPT !.w = FALSE] /\ q' = FALSE
+              /\ UNCHANGED <<c, script, steps, dir, now, readyCh, cur, nreq, fetched, renew, target, files, fca, ver, pcR, pcG, seen, gval>>
+FailRet == /\ pcRun = "failRet" /\ pcRun' = "done" /\ q' = FALSE /\ Emit([ev |-> "run_ret", err |-> TRUE])
+           /\ UNCHANGED <<script, steps, dir, now, rw, readyCh, cur, nreq, fetched, renew, target, files, fca, ver, pcR, pcG, seen, gval>>
+(* rotation loop - spiffe.go runRotation: After(min(1 min, renewTime - now)) *)
+RotArm == /\ pcRun = "arm" /\ pcRun' = "wait" /\ target' = Min2(2 * (now + 60), renew) /\ q' = FALSE
+          /\ UNCHANGED <<c, script, steps, dir, now, rw, readyCh, cur, nreq, fetched, renew, files, fca, ver, pcR, pcG, seen, gval>>
+RotWake == /\ pcRun = "wait" /\ 2 * now >= target /\ pcRun' = (IF 2 * now < renew THEN "arm" ELSE "req2") /\ q' = FALSE
+           /\ UNCHANGED <<c, script, steps, dir, now, rw, readyCh, cur, nreq, fetched, renew, target, files, fca, ver, pcR, pcG, seen, gval>>
+RotRetry == /\ pcRun = "retry" /\ 2 * now >= target /\ pcRun' = "arm" /\ q' = FALSE
+            /\ UNCHANGED <<c, script, steps, dir, now, rw, readyCh, cur, nreq, fetched, renew, target, files, fca, ver, pcR, pcG, seen, gval>>
 SwapReq == /\ pcRun = "swapReq" /\ pcRun' = "swapWait" /\ rw' = [rw EXCEPT !.ww = TRUE] /\ q' = FALSE
-           /\ UNCHANGED <<seen, steps, c, script, now, readyCh, cur, nreq, fetched, renew, target, files, pcR, pcG>>
+           /\ UNCHANGED <<c, script, steps, dir, now, readyCh, cur, nreq, fetched, renew, target, files, fca, ver, pcR, pcG, seen, gval>>
 Swap == /\ pcRun = "swap" /\ pcRun' = "arm" /\ cur' = nreq /\ rw' = [rw EXCEPT !.w = FALSE] /\ q' = FALSE
-        /\ renew' = IF Variant = "rebase" /\ Half(fetched.nb, fetched.na) <= now
-                    THEN now + ((fetched.na - now) \div 2) ELSE Half(fetched.nb, fetched.na)
-        /\ UNCHANGED <<seen, steps, c, script, now, readyCh, nreq, fetched, target, files, pcR, pcG>>
-RunInternal == \/ RunLockReq \/ LockAcq("lockWait", "req") \/ Req("req", "ans") \/ Ans("ans", "publish", "initFail")
-               \/ RunPublish \/ RunClose \/ RunUnlock \/ RunInitFail
-               \/ RotArm \/ RotWake \/ RotRetry \/ Req("req2", "ans2") \/ Ans("ans2", "swapReq", "retry")
-               \/ SwapReq \/ LockAcq("swapWait", "swap") \/ Swap
+        /\ renew' = IF Variant = "rebase" /\ fetched.nb + fetched.na <= 2 * now
+                    THEN now + fetched.na ELSE fetched.nb + fetched.na
+        /\ UNCHANGED <<c, script, steps, dir, now, readyCh, nreq, fetched, target, files, fca, ver, pcR, pcG, seen, gval>>
+(* the steps of Run that no event of a trace determines *)
+RunSilent == \/ RunLockReq \/ LockAcq("lockWait", "req")
+             \/ RunPublish \/ RunClose \/ RunUnlock \/ FailClose \/ FailUnlock
+             \/ DirWrite("dirwBad", "initFail") \/ DirWrite("dirwBad2", "retry")
+             \/ RotArm \/ RotWake \/ RotRetry \/ SwapReq \/ LockAcq("swapWait", "swap") \/ Swap
+RunInternal == \/ RunSilent \/ FailRet
+               \/ Req("req", "ans") \/ Issue(Answer(nreq), nreq, "ans", "publish", "initFail") \/ DirWrite("dirw", "publish")
+               \/ Req("req2", "ans2") \/ Issue(Answer(nreq), nreq, "ans2", "swapReq", "retry") \/ DirWrite("dirw2", "swapReq")
 RunBlocked == \/ pcRun \in {"idle", "done"}
               \/ pcRun \in {"lockWait", "swapWait"} /\ rw.rd # {}
-              \/ pcRun \in {"wait", "retry"} /\ now < target
+              \/ pcRun \in {"wait", "retry"} /\ 2 * now < target
 
 (* ------------------------------ Ready ------------------------------ *)
-ReadyCall(r) == /\ pcR[r] = "idle" /\ r <= NReady /\ pcR' = [pcR EXCEPT ![r] = "wait"] /\ Emit([ev |-> "ready_call", r |-> r]) /\ q' = FALSE
-                /\ UNCHANGED <<seen, steps, script, now, pcRun, rw, readyCh, cur, nreq, fetched, renew, target, files, pcG>>
+ReadyBegin(r) == /\ pcR[r] = "idle" /\ r <= NReady /\ pcR' = [pcR EXCEPT ![r] = "wait"] /\ Emit([ev |-> "ready_call", r |-> r]) /\ q' = FALSE
+                 /\ UNCHANGED <<script, steps, dir, now, pcRun, rw, readyCh, cur, nreq, fetched, renew, target, files, fca, ver, pcG, seen, gval>>
 ReadyRet(r) == /\ pcR[r] = "wait" /\ readyCh /\ pcR' = [pcR EXCEPT ![r] = "done"] /\ q' = FALSE
                /\ Emit([ev |-> "ready_ret", r |-> r, err |-> FALSE])
-               /\ UNCHANGED <<seen, steps, script, now, pcRun, rw, readyCh, cur, nreq, fetched, renew, target, files, pcG>>
+               /\ UNCHANGED <<script, steps, dir, now, pcRun, rw, readyCh, cur, nreq, fetched, renew, target, files, fca, ver, pcG, seen, gval>>
 ReadyBlocked(r) == pcR[r] \in {"idle", "done"} \/ (pcR[r] = "wait" /\ ~readyCh)
 
 (* ------------------------------ Get / consumers ------------------------------ *)
@@ -128,32 +147,39 @@ CanRLock == ~rw.w /\ ~rw.ww
 ConsStart(g) == /\ IsCons(g) /\ pcG[g] = "idle" /\ pcR[ConsReady(g)] = "idle"
                 /\ pcR' = [pcR EXCEPT ![ConsReady(g)] = "wait"] /\ pcG' = [pcG EXCEPT ![g] = "rwait"] /\ q' = FALSE
                 /\ Emit([ev |-> "ready_call", r |-> ConsReady(g)])
-                /\ UNCHANGED <<seen, steps, script, now, pcRun, rw, readyCh, cur, nreq, fetched, renew, target, files>>
-(* To keep the timeline configurations finite and small, an observer calls while the clock has not moved yet, *)
-(* while a renewal is in flight, or when there may be something new to see; the clock moves only between such calls, and *)
-(* only once a new SVID has been looked at.                                                                    *)
-MayObserve == now = 0 \/ pcRun \in {"ans2", "swapReq", "swapWait", "swap"} \/ seen # cur
-GetCall(g) == /\ \/ ~IsCons(g) /\ pcG[g] = "idle" /\ MayObserve
-                 \/ ~IsCons(g) /\ pcG[g] = "done" /\ MaxObs > 0 /\ MayObserve     \* an observer calls again (same id: the monitor keeps the last call)
-                 \/ IsCons(g) /\ pcG[g] = "rwait" /\ pcR[ConsReady(g)] = "done"
-              /\ pcG' = [pcG EXCEPT ![g] = "enter"] /\ q' = FALSE
-              /\ Emit([ev |-> "get_call", g |-> g, after |-> IF IsCons(g) THEN ConsReady(g) ELSE 0])
-              /\ UNCHANGED <<seen, steps, script, now, pcRun, rw, readyCh, cur, nreq, fetched, renew, target, files, pcR>>
+                /\ UNCHANGED <<script, steps, dir, now, pcRun, rw, readyCh, cur, nreq, fetched, renew, target, files, fca, ver, seen, gval>>
+(* a call of GetX509SVID: a first call, an observer calling again (same id: the monitor keeps the last call), *)
+(* or a consumer released by its Ready                                                                        *)
+GetBegin(g) == /\ \/ ~IsCons(g) /\ pcG[g] \in {"idle", "done"}
+                  \/ IsCons(g) /\ pcG[g] = "rwait" /\ pcR[ConsReady(g)] = "done"
+               /\ pcG' = [pcG EXCEPT ![g] = "enter"] /\ q' = FALSE                                    \* hook spiffe.get.enter
+               /\ Emit([ev |-> "get_call", g |-> g, after |-> IF IsCons(g) THEN ConsReady(g) ELSE 0])
+               /\ UNCHANGED <<script, steps, dir, now, pcRun, rw, readyCh, cur, nreq, fetched, renew, target, files, fca, ver, pcR, seen, gval>>
+(* To keep the timeline configurations finite and small, the exhaustive check lets an observer call while the  *)
+(* clock has not moved yet, while a renewal is in flight, or when there may be something new to see; the clock *)
+(* moves only between such calls, and only once a new SVID has been looked at.                                *)
+MayObserve == now = 0 \/ pcRun \in {"ans2", "dirw2", "dirwBad2", "swapReq", "swapWait", "swap"} \/ seen # cur
+GetCall(g) == /\ (~IsCons(g) => MayObserve /\ (pcG[g] = "done" => MaxObs > 0))
+              /\ GetBegin(g)
 GetEnter(g) == /\ pcG[g] = "enter" /\ q' = FALSE
                /\ IF GetFix THEN readyCh /\ pcG' = [pcG EXCEPT ![g] = "rlock"] /\ UNCHANGED rw
                             ELSE CanRLock /\ pcG' = [pcG EXCEPT ![g] = "locked"] /\ rw' = [rw EXCEPT !.rd = @ \cup {g}]
-               /\ UNCHANGED <<seen, steps, c, script, now, pcRun, readyCh, cur, nreq, fetched, renew, target, files, pcR>>
+               /\ UNCHANGED <<c, script, steps, dir, now, pcRun, readyCh, cur, nreq, fetched, renew, target, files, fca, ver, pcR, seen, gval>>
 GetSecond(g) == /\ q' = FALSE
                 /\ \/ pcG[g] = "rlock" /\ CanRLock /\ rw' = [rw EXCEPT !.rd = @ \cup {g}]
                    \/ pcG[g] = "locked" /\ readyCh /\ UNCHANGED rw
-                /\ pcG' = [pcG EXCEPT ![g] = "held"]
-                /\ UNCHANGED <<seen, steps, c, script, now, pcRun, readyCh, cur, nreq, fetched, renew, target, files, pcR>>
-GetRet(g) == /\ pcG[g] = "held" /\ pcG' = [pcG EXCEPT ![g] = "done"] /\ rw' = [rw EXCEPT !.rd = @ \ {g}] /\ q' = FALSE
-             /\ seen' = cur
-             /\ Emit([ev |-> "get_ret", g |-> g, svid |-> cur, err |-> cur = 0,
-                      key |-> IF cur = 0 THEN 0 ELSE IF Variant = "keyReuse" THEN 1 ELSE cur])
-             /\ UNCHANGED <<steps, script, now, pcRun, readyCh, cur, nreq, fetched, renew, target, files, pcR>>
-GetInternal(g) == GetEnter(g) \/ GetSecond(g) \/ GetRet(g) \/ (IsCons(g) /\ GetCall(g))
+                /\ pcG' = [pcG EXCEPT ![g] = "held"]                                                  \* hook spiffe.get.locked (repaired code)
+                /\ UNCHANGED <<c, script, steps, dir, now, pcRun, readyCh, cur, nreq, fetched, renew, target, files, fca, ver, pcR, seen, gval>>
+(* the value is read and the read lock released inside GetX509SVID; the caller sees the return later *)
+GetUnlock(g) == /\ pcG[g] = "held" /\ pcG' = [pcG EXCEPT ![g] = "ret"] /\ rw' = [rw EXCEPT !.rd = @ \ {g}] /\ q' = FALSE
+                /\ gval' = [gval EXCEPT ![g] = cur]
+                /\ UNCHANGED <<c, script, steps, dir, now, pcRun, readyCh, cur, nreq, fetched, renew, target, files, fca, ver, pcR, seen>>
+GetRet(g) == /\ pcG[g] = "ret" /\ pcG' = [pcG EXCEPT ![g] = "done"] /\ q' = FALSE
+             /\ seen' = gval[g]
+             /\ Emit([ev |-> "get_ret", g |-> g, svid |-> gval[g], err |-> gval[g] = 0,
+                      key |-> IF gval[g] = 0 THEN 0 ELSE IF Variant = "keyReuse" THEN 1 ELSE gval[g]])
+             /\ UNCHANGED <<script, steps, dir, now, pcRun, rw, readyCh, cur, nreq, fetched, renew, target, files, fca, ver, pcR, gval>>
+GetInternal(g) == GetEnter(g) \/ GetSecond(g) \/ GetUnlock(g) \/ GetRet(g) \/ (IsCons(g) /\ GetCall(g))
 GetBlocked(g) == \/ pcG[g] \in {"idle", "done"}
                  \/ pcG[g] = "rwait" /\ pcR[ConsReady(g)] # "done"
                  \/ pcG[g] = "enter" /\ (IF GetFix THEN ~readyCh ELSE ~CanRLock)
@@ -167,18 +193,18 @@ NPending == Cardinality({r \in RIds : pcR[r] = "wait"}) + Cardinality({g \in GId
 QuiesceEvs(c0) == CNext(CNext(c0, FilesEv), [ev |-> "quiescent"])
 Quiesce == /\ Quiet /\ ~q /\ q' = TRUE
            /\ c' = IF AllStarted THEN CNext(QuiesceEvs(c), [ev |-> "stuck", n |-> NPending]) ELSE QuiesceEvs(c)
-           /\ UNCHANGED <<seen, steps, script, now, pcRun, rw, readyCh, cur, nreq, fetched, renew, target, files, pcR, pcG>>
+           /\ UNCHANGED <<script, steps, dir, now, pcRun, rw, readyCh, cur, nreq, fetched, renew, target, files, fca, ver, pcR, pcG, seen, gval>>
 MaxOf(S) == CHOOSE x \in S : \A y \in S : y <= x
+StepTo(t) == /\ now' = t /\ q' = FALSE /\ c' = CNext(QuiesceEvs(c), [ev |-> "adv", now |-> t])
+             /\ UNCHANGED <<script, steps, dir, pcRun, rw, readyCh, cur, nreq, fetched, renew, target, files, fca, ver, pcR, pcG, seen, gval>>
 Step(d) == /\ Quiet /\ pcRun \in {"wait", "retry"} /\ now + d <= Min2(Horizon, MaxTicks * MaxOf(steps))
            /\ \A g \in GIds : pcG[g] \in {"idle", "done"}
            /\ (seen = cur \/ ~\E g \in GIds : ~IsCons(g) /\ (pcG[g] = "idle" \/ MaxObs > 0))
-           /\ now' = now + d /\ q' = FALSE
-           /\ c' = CNext(QuiesceEvs(c), [ev |-> "adv", now |-> now + d])
-           /\ UNCHANGED <<seen, steps, script, pcRun, rw, readyCh, cur, nreq, fetched, renew, target, files, pcR, pcG>>
+           /\ StepTo(now + d)
 
 Next == \/ RunCall \/ RunInternal
-        \/ \E r \in RIds : ReadyCall(r) \/ ReadyRet(r)
-        \/ \E g \in GIds : ConsStart(g) \/ GetCall(g) \/ GetEnter(g) \/ GetSecond(g) \/ GetRet(g)
+        \/ \E r \in RIds : ReadyBegin(r) \/ ReadyRet(r)
+        \/ \E g \in GIds : ConsStart(g) \/ GetCall(g) \/ GetEnter(g) \/ GetSecond(g) \/ GetUnlock(g) \/ GetRet(g)
         \/ Quiesce \/ \E d \in steps : Step(d)
 Spec == /\ Init /\ [][Next]_vars
         /\ WF_vars(RunCall) /\ WF_vars(RunInternal)
